@@ -171,7 +171,7 @@ func (m *Machine) Concretize(t *term.Term, what string) int64 {
 	r2, mod2 := m.query(cond2)
 	if r2 != smt.Unsat {
 		if len(excl)+1 >= m.Limits.ConcLimit {
-			panic(abort{abLimit, fmt.Sprintf("concretise: more than %d values at %s", m.Limits.ConcLimit, what)})
+			panic(abort{abLimit, fmt.Sprintf("concretise: more than %d values at %s (term %s)", m.Limits.ConcLimit, what, trunc(termKey(t), 300))})
 		}
 		ne := append(append([]int64(nil), excl...), v)
 		m.alts = append(m.alts, WorkItem{Prefix: append([]int64(nil), m.path...), Excl: ne, HasExc: true, Model: mod2})
@@ -272,4 +272,11 @@ func (m *Machine) Assert(c *term.Term, label string) {
 	}
 	m.setModel(mod)
 	m.Solver.Assert(c)
+}
+
+func trunc(s string, n int) string {
+	if len(s) > n {
+		return s[:n] + "…"
+	}
+	return s
 }
